@@ -832,6 +832,9 @@ def build_type(spec):
     return T.PrefixedArray(getattr(T, spec[1]), build_type(spec[2]))
 
 
+defn_case = P4.reassigned(defn_case)
+hand_case = P4.reassigned(hand_case)
+program_case = P4.reassigned(program_case)
 COMPONENTS = {'defn': defn_case, 'hand': hand_case, 'program': program_case}
 
 
